@@ -1,4 +1,4 @@
-import ConcVerif.Proof.Rcu
+import ConcVerif.Proof.RcuAll
 /-! # C13 — rcu_list destroys and frees everything it allocated exactly once, for any T
 
 All statements are over `Reachable s`: every accepted event sequence of the model in `Model/Rcu.lean`,
@@ -124,12 +124,6 @@ theorem C13_fre {s s' : St} {t : Tid} {z : Bool} {b : Nat} (h : Reachable s) (hs
     simp only [bview_vpc, hpc, BView, privLed, bview_rled] at hp
     refine ⟨Or.inl (by simp only [St.led]; exact hp.2), ?_⟩
     cases nx <;> simp [St.led, St.setRled, St.setPc, St.dRecAt]
-
-/-- events other than `alo / con / des / fre` leave the ledger alone -/
-theorem ledger_frame {s s' : St} {t : Tid} {e : Ev} (hS : Step s t e s')
-    (hk : e.kind ≠ .alo ∧ e.kind ≠ .con ∧ e.kind ≠ .des ∧ e.kind ≠ .fre) : s'.nled = s.nled ∧ s'.rled = s.rled := by
-  cases hS <;> simp [Ev.kind] at hk <;> (try exact ⟨rfl, rfl⟩)
-  all_goals (simp only [St.dNodeAt, St.reapAt, St.dRecAt]; split <;> exact ⟨rfl, rfl⟩)
 
 /-- Exactly once, in order: any step changes the ledger of at most the block its event names, and then
 to the successor state.  Since `LedNext` is acyclic and `freed` has no successor, every block goes
